@@ -58,6 +58,7 @@ type State struct {
 	loops    map[int]bool // active loop headers (block index)
 	fresh    *int
 	sigOf    func(string) (string, bool)
+	rangeOf  func(string) (string, string, bool)
 	depth    int
 	dead     bool
 }
@@ -83,6 +84,7 @@ func (st *State) clone() *State {
 		loops:    make(map[int]bool, len(st.loops)),
 		fresh:    st.fresh,
 		sigOf:    st.sigOf,
+		rangeOf:  st.rangeOf,
 		depth:    st.depth,
 	}
 	for k, v := range st.declared {
@@ -123,6 +125,11 @@ func (st *State) assume(t Term) {
 	if t.S == "true" {
 		return
 	}
+	key := "as:" + t.S
+	if st.declared[key] {
+		return
+	}
+	st.declared[key] = true
 	st.cmds = append(st.cmds, "(assert "+t.S+")")
 }
 
@@ -150,7 +157,10 @@ func (st *State) comp(name string, sortStr string) string {
 	if tag, ok := st.lazyTag[name]; ok {
 		n = name + "@" + tag
 	}
-	st.declare(n, sortStr)
+	if !st.declared[n] {
+		st.declare(n, sortStr)
+		st.compAxiom(name, sym(n), sortStr)
+	}
 	st.heap[name] = sym(n)
 	return sym(n)
 }
@@ -185,6 +195,7 @@ func (st *State) havocComp(name string) {
 	}
 	n := st.freshName(name)
 	st.declare(n, sortStr)
+	st.compAxiom(name, sym(n), sortStr)
 	st.heap[name] = sym(n)
 }
 
@@ -248,7 +259,10 @@ func (st *State) compAt(h *HeapSnap, name, sortStr string) string {
 	if tag, ok := h.lazyTag[name]; ok {
 		n = name + "@" + tag
 	}
-	st.declare(n, sortStr)
+	if !st.declared[n] {
+		st.declare(n, sortStr)
+		st.compAxiom(name, sym(n), sortStr)
+	}
 	// if the current state is in the same epoch and has not touched the
 	// component, both views coincide
 	if st.epoch == h.epoch {
@@ -272,4 +286,43 @@ func (st *State) seed(t Term) {
 	}
 	st.declared[key] = true
 	st.cmds = append(st.cmds, "(assert (trg "+t.S+"))")
+}
+
+// seedKey makes the term an instantiation trigger for quantifiers over map keys.
+func (st *State) seedKey(t Term) {
+	fn := ""
+	switch t.Sort {
+	case SInt:
+		fn = "trgk"
+	case SStr:
+		fn = "trgs"
+	default:
+		return
+	}
+	key := fn + ":" + t.S
+	if st.declared[key] {
+		return
+	}
+	st.declared[key] = true
+	st.cmds = append(st.cmds, "(assert ("+fn+" "+t.S+"))")
+}
+
+// compAxiom asserts the type invariant of a freshly declared version of an
+// integer-valued heap component: every value it holds is in the range of its Go type.
+func (st *State) compAxiom(name, symbol, sortStr string) {
+	if st.rangeOf == nil {
+		return
+	}
+	lo, hi, ok := st.rangeOf(name)
+	if !ok {
+		return
+	}
+	switch {
+	case strings.HasPrefix(sortStr, "(Array Int (Array "):
+		inner := strings.TrimPrefix(sortStr, "(Array Int (Array ")
+		ks := inner[:strings.Index(inner, " ")]
+		st.cmds = append(st.cmds, fmt.Sprintf("(assert (forall ((r Int) (k %s)) (! (and (<= %s (select (select %s r) k)) (<= (select (select %s r) k) %s)) :pattern ((select (select %s r) k)))))", ks, lo, symbol, symbol, hi, symbol))
+	case strings.HasPrefix(sortStr, "(Array Int "):
+		st.cmds = append(st.cmds, fmt.Sprintf("(assert (forall ((r Int)) (! (and (<= %s (select %s r)) (<= (select %s r) %s)) :pattern ((select %s r)))))", lo, symbol, symbol, hi, symbol))
+	}
 }
